@@ -30,6 +30,9 @@ def gen_water():
     for f in ("b_water_McCain", "b_water_McCain_dp", "compressibility_water_McCain",
               "density_water_McCain", "viscosity_water_McCain"):
         _fn(m, f)
+    for f in ("b_water_McCain", "b_water_McCain_dp", "compressibility_water_McCain",
+              "density_water_McCain", "viscosity_water_McCain"):
+        _fn(m, f, kinds={"pressure": "arr"})
     return m
 
 
@@ -76,6 +79,9 @@ def gen_oil():
               "b_o_Standing", "oil_compressibility_Standing", "density_Standing",
               "_mu_dead_to_live_br", "viscosity_beggs_robinson"):
         _fn(m, f)
+    # array branches (elementwise form, see py2coq.El): Spivey first, then GOR, then Bo
+    for f in ("oil_compressibility_undersat_Spivey", "solution_gor_Standing", "b_o_Standing"):
+        _fn(m, f, kinds={"pressure": "arr"})
     return m
 
 
